@@ -263,6 +263,9 @@ func cmdCheck(args []string) int {
 	}
 	Discharge(vcs, opts)
 	if opts.Hints != nil && opts.Record {
+		for _, vc := range vcs {
+			vc.saveNameTable()
+		}
 		if err := opts.Hints.Save(); err != nil {
 			fmt.Fprintln(os.Stderr, "govc: cannot save hints:", err)
 		}
